@@ -510,18 +510,19 @@ def StepSim : StepR → StepR → Prop
   | .more a n₁ c₁, .more b n₂ c₂ => Sim a b ∧ n₁ = n₂ ∧ c₁ = c₂
   | _, _ => False
 
-theorem sim_readStep {f : File} {unc : Codec} (hc : CodecOK unc) {m₁ m₂ : MR} (h : Sim m₁ m₂)
-    (c₁ : Coherent f unc m₁) (c₂ : Coherent f unc m₂) (size : Nat) :
+theorem stepSim_of_refill {f : File} {unc : Codec} {m₁ m₂ : MR} (size : Nat)
+    (e1 : (refill true f unc m₁).1 = (refill true f unc m₂).1)
+    (e2 : Sim (refill true f unc m₁).2.1 (refill true f unc m₂).2.1)
+    (e3 : (refill true f unc m₁).2.2 = (refill true f unc m₂).2.2)
+    (hok : (refill true f unc m₁).1 = 0 →
+      (refill true f unc m₁).2.1.offset + (refill true f unc m₁).2.2 ≤ (refill true f unc m₁).2.1.dataUsed) :
     StepSim (readStep true f unc m₁ size) (readStep true f unc m₂ size) := by
-  obtain ⟨e1, e2, e3⟩ := sim_refill (f := f) (unc := unc) h
-  have hok := refill_ok hc c₁
-  have hr := refill_coherent hc c₁
   unfold readStep
   generalize refill true f unc m₁ = r₁ at *
   generalize refill true f unc m₂ = r₂ at *
   obtain ⟨st1, a, d1⟩ := r₁
   obtain ⟨st2, b, d2⟩ := r₂
-  simp only at e1 e2 e3 hok hr ⊢
+  simp only at e1 e2 e3 hok ⊢
   subst e1 e3
   by_cases h0 : st1 = 0
   · subst h0
@@ -541,6 +542,12 @@ theorem sim_readStep {f : File} {unc : Codec} (hc : CodecOK unc) {m₁ m₂ : MR
       · omega
   · simp only [ne_eq, h0, not_false_eq_true, if_true]
     exact ⟨rfl, e2⟩
+
+theorem sim_readStep {f : File} {unc : Codec} (hc : CodecOK unc) {m₁ m₂ : MR} (h : Sim m₁ m₂)
+    (c₁ : Coherent f unc m₁) (_c₂ : Coherent f unc m₂) (size : Nat) :
+    StepSim (readStep true f unc m₁ size) (readStep true f unc m₂ size) := by
+  obtain ⟨e1, e2, e3⟩ := sim_refill (f := f) (unc := unc) h
+  exact stepSim_of_refill size e1 e2 e3 (fun h0 => (refill_ok hc c₁ h0).1)
 
 theorem sim_readLoop {f : File} {unc : Codec} (hc : CodecOK unc) :
     ∀ (k : Nat) (m₁ m₂ : MR) (size : Nat) (acc : Bytes), Sim m₁ m₂ → Coherent f unc m₁ → Coherent f unc m₂ →
@@ -666,5 +673,198 @@ theorem sim_answerReads {f : File} {unc : Codec} (hc : CodecOK unc) (ns : List N
     · simp only [hst, ne_eq, not_true_eq_false, if_false]
       rw [ih _ _ e3 k₁ k₂]
     · simp only [hst, ne_eq, not_false_eq_true, if_true]
+
+
+/-! ### seeking back to a remembered position (out-of-line xattr values) -/
+
+theorem Sim.symm {m₁ m₂ : MR} (h : Sim m₁ m₂) : Sim m₂ m₁ := by
+  obtain ⟨h1, h2, h3, h4, h5, h6, h7, h8⟩ := h
+  exact ⟨h1.symm, h2.symm, h3.symm, h4.symm, h5.symm, h6.symm, h7.symm, h8.symm⟩
+
+theorem Sim.trans {m₁ m₂ m₃ : MR} (h : Sim m₁ m₂) (g : Sim m₂ m₃) : Sim m₁ m₃ := by
+  obtain ⟨h1, h2, h3, h4, h5, h6, h7, h8⟩ := h
+  obtain ⟨g1, g2, g3, g4, g5, g6, g7, g8⟩ := g
+  exact ⟨h1.trans g1, h2.trans g2, h3.trans g3, h4.trans g4, h5.trans g5, h6.trans g6, h7.trans g7, h8.trans g8⟩
+
+theorem seek_ok_tag {fix : Bool} {f : File} {unc : Codec} (hc : CodecOK unc) {m : MR} {b o : Nat}
+    (h : (seek fix f unc m b o).1 = 0) : (seek fix f unc m b o).2.tag = b := by
+  unfold seek at h ⊢
+  by_cases hw : b < m.start ∨ b ≥ m.limit
+  · simp only [hw, if_true] at h; exact absurd h (by decide)
+  · simp only [hw, if_false] at h ⊢
+    by_cases hb : b = m.tag
+    · simp only [hb, if_true] at h ⊢
+      by_cases ho : o ≥ m.dataUsed
+      · simp only [ho, if_true] at h; exact absurd h (by decide)
+      · simp only [ho, if_false]
+    · simp only [hb, if_false] at h ⊢
+      cases hl : loadBlock f unc m.limit b with
+      | early e => simp only [hl] at h; exact absurd h (loadBlock_early hl)
+      | uncErr e raw => simp only [hl] at h; exact absurd h (loadBlock_uncErr_ne hc hl)
+      | done raw blk size =>
+        simp only [hl] at h ⊢
+        by_cases ho : o ≥ blk.length
+        · simp only [ho, if_true] at h; exact absurd h (by decide)
+        · simp only [ho, if_false]
+
+/-- after a successful seek, `get_position` reports exactly the position asked for -/
+theorem seek_getPos {fix : Bool} {f : File} {unc : Codec} (hc : CodecOK unc) {m : MR} {b o : Nat}
+    (h : (seek fix f unc m b o).1 = 0) : getPos (seek fix f unc m b o).2 = (b, o) := by
+  obtain ⟨h1, h2⟩ := seek_ok hc h
+  have h3 := seek_ok_tag hc h
+  unfold getPos
+  rw [h1, h3]
+  have : ¬ o = (seek fix f unc m b o).2.dataUsed := by omega
+  simp only [this, if_false]
+
+/-- two coherent readers over the same window answer a seek alike and end up indistinguishable -/
+theorem seek_sim_of_coherent {f : File} {unc : Codec} (hc : CodecOK unc) {m₁ m₂ : MR}
+    (c₁ : Coherent f unc m₁) (c₂ : Coherent f unc m₂) (hs : m₁.start = m₂.start) (hl : m₁.limit = m₂.limit) (b o : Nat) :
+    (seek true f unc m₁ b o).1 = (seek true f unc m₂ b o).1 ∧
+    ((seek true f unc m₁ b o).1 = 0 → Sim (seek true f unc m₁ b o).2 (seek true f unc m₂ b o).2) := by
+  have v₁ := seek_vs_fresh hc c₁ b o
+  have v₂ := seek_vs_fresh hc c₂ b o
+  rw [hs, hl] at v₁
+  refine ⟨v₁.1.trans v₂.1.symm, fun h0 => ?_⟩
+  exact (v₁.2 h0).trans (v₂.2 (v₂.1.trans (v₁.1.symm.trans h0))).symm
+
+
+theorem refill_at_end (fix : Bool) (f : File) (unc : Codec) {m : MR} (h : m.offset = m.dataUsed) :
+    refill fix f unc m =
+      ((seek fix f unc m m.nextBlock 0).1, (seek fix f unc m m.nextBlock 0).2, (seek fix f unc m m.nextBlock 0).2.dataUsed) := by
+  unfold refill
+  have : subWrap m.dataUsed m.offset = 0 := by unfold subWrap; rw [h]; simp
+  simp only [this, if_true]
+
+theorem refill_at_start (fix : Bool) (f : File) (unc : Codec) {m : MR} (h0 : m.offset = 0) (hd : m.dataUsed ≠ 0) :
+    refill fix f unc m = (0, m, m.dataUsed) := by
+  unfold refill
+  have : subWrap m.dataUsed m.offset = m.dataUsed := by unfold subWrap; rw [h0]; simp
+  simp only [this, hd, if_false]
+
+/-- reading on from the end of a block is reading from the start of the next one -/
+theorem read_from_block_end {f : File} {unc : Codec} (hc : CodecOK unc) {m m3 : MR}
+    (cm : Coherent f unc m) (c3 : Coherent f unc m3) (hend : m.offset = m.dataUsed)
+    (hs0 : (seek true f unc m m.nextBlock 0).1 = 0) (hsim : Sim (seek true f unc m m.nextBlock 0).2 m3)
+    (n : Nat) (hn : n ≠ 0) :
+    (read true f unc m n).1 = (read true f unc m3 n).1 ∧ (read true f unc m n).2.1 = (read true f unc m3 n).2.1 ∧
+    Sim (read true f unc m n).2.2 (read true f unc m3 n).2.2 := by
+  obtain ⟨ho, hdu⟩ := seek_ok hc hs0
+  have h3o : m3.offset = 0 := by rw [← hsim.2.2.2.2.2.1]; exact ho
+  have h3d : m3.dataUsed ≠ 0 := by rw [← hsim.2.2.2.2.1]; omega
+  have hss : StepSim (readStep true f unc m n) (readStep true f unc m3 n) := by
+    apply stepSim_of_refill
+    · rw [refill_at_end _ _ _ hend, refill_at_start _ _ _ h3o h3d]; exact hs0
+    · rw [refill_at_end _ _ _ hend, refill_at_start _ _ _ h3o h3d]; exact hsim
+    · rw [refill_at_end _ _ _ hend, refill_at_start _ _ _ h3o h3d]; exact hsim.2.2.2.2.1
+    · intro _
+      rw [refill_at_end _ _ _ hend]
+      simp only
+      omega
+  unfold read
+  cases n with
+  | zero => exact absurd rfl hn
+  | succ k =>
+    rw [readLoop, readLoop]
+    simp only [hn, if_false]
+    cases hs₁ : readStep true f unc m (k + 1) with
+    | done s₁ a =>
+      cases hs₂ : readStep true f unc m3 (k + 1) with
+      | done s₂ b => rw [hs₁, hs₂] at hss; exact ⟨hss.1, rfl, hss.2⟩
+      | more b n₂ ch₂ => rw [hs₁, hs₂] at hss; exact hss.elim
+    | more a n₁ ch₁ =>
+      cases hs₂ : readStep true f unc m3 (k + 1) with
+      | done s₂ b => rw [hs₁, hs₂] at hss; exact hss.elim
+      | more b n₂ ch₂ =>
+        rw [hs₁, hs₂] at hss
+        obtain ⟨hsm, rfl, rfl⟩ := hss
+        exact sim_readLoop hc _ _ _ _ _ hsm (readStep_more hc cm hn hs₁).1 (readStep_more hc c3 hn hs₂).1
+
+theorem read_zero (fix : Bool) (f : File) (unc : Codec) (m : MR) : read fix f unc m 0 = (0, [], m) := by
+  unfold read
+  rw [readLoop]
+  simp
+
+theorem answerReads_from_block_end {f : File} {unc : Codec} (hc : CodecOK unc) (ns : List Nat) :
+    ∀ (m m3 : MR), Coherent f unc m → Coherent f unc m3 → m.offset = m.dataUsed →
+      (seek true f unc m m.nextBlock 0).1 = 0 → Sim (seek true f unc m m.nextBlock 0).2 m3 →
+      answerReads true f unc m ns = answerReads true f unc m3 ns := by
+  induction ns with
+  | nil =>
+    intro m m3 cm c3 hend hs0 hsim
+    obtain ⟨ho, hdu⟩ := seek_ok hc hs0
+    have htag := seek_ok_tag hc hs0
+    unfold answerReads getPos
+    have h3o : m3.offset = 0 := by rw [← hsim.2.2.2.2.2.1]; exact ho
+    have h3d : ¬ (0 = m3.dataUsed) := by rw [← hsim.2.2.2.2.1]; omega
+    have h3t : m3.tag = m.nextBlock := by rw [← hsim.2.2.1]; exact htag
+    simp only [hend, if_true, h3o, h3t, h3d, if_false]
+  | cons n ns ih =>
+    intro m m3 cm c3 hend hs0 hsim
+    by_cases hn : n = 0
+    · subst hn
+      unfold answerReads
+      simp only [read_zero, ne_eq, not_true_eq_false, if_false]
+      rw [ih m m3 cm c3 hend hs0 hsim]
+    · obtain ⟨e1, e2, e3⟩ := read_from_block_end hc cm c3 hend hs0 hsim n hn
+      have k₁ := read_coherent hc cm n
+      have k₂ := read_coherent hc c3 n
+      unfold answerReads
+      simp only
+      rw [← e1, ← e2]
+      by_cases hst : (read true f unc m n).1 = 0
+      · simp only [hst, ne_eq, not_true_eq_false, if_false]
+        rw [sim_answerReads hc ns _ _ e3 k₁ k₂]
+      · simp only [hst, ne_eq, not_false_eq_true, if_true]
+
+theorem seek_hit_self {f : File} {unc : Codec} {m : MR} (_hne : m.offset ≠ m.dataUsed)
+    (h : (seek true f unc m m.tag m.offset).1 = 0) : (seek true f unc m m.tag m.offset).2 = m := by
+  unfold seek at h ⊢
+  by_cases hw : m.tag < m.start ∨ m.tag ≥ m.limit
+  · simp only [hw, if_true] at h; exact absurd h (by decide)
+  · simp only [hw, if_false, if_true] at h ⊢
+    by_cases ho : m.offset ≥ m.dataUsed
+    · simp only [ho, if_true] at h; exact absurd h (by decide)
+    · simp only [ho, if_false]
+
+/-- **`read_value` restores the position.**  A detour (seek elsewhere, read, seek back to the remembered
+`get_position`) that succeeds leaves a reader from which every continuation reads exactly what it would have
+read without the detour, and which reports the remembered position. -/
+theorem oolDetour_restores {f : File} {unc : Codec} (hc : CodecOK unc) {m : MR} (cm : Coherent f unc m)
+    (b o n : Nat) (hok : (oolDetour true f unc m b o n).1 = 0) :
+    getPos (oolDetour true f unc m b o n).2.2 = getPos m ∧
+    ∀ ns, answerReads true f unc (oolDetour true f unc m b o n).2.2 ns = answerReads true f unc m ns := by
+  unfold oolDetour at hok ⊢
+  simp only at hok ⊢
+  by_cases h1 : (seek true f unc m b o).1 = 0
+  · simp only [h1, ne_eq, not_true_eq_false, if_false] at hok ⊢
+    by_cases h2 : (read true f unc (seek true f unc m b o).2 n).1 = 0
+    · simp only [h2, ne_eq, not_true_eq_false, if_false] at hok ⊢
+      have cs := seek_coherent hc cm b o
+      have cr := read_coherent hc cs n
+      have hsl := seek_start_limit true f unc m b o
+      have hrl := readLoop_start_limit true f unc n (seek true f unc m b o).2 n []
+      have hstart : (read true f unc (seek true f unc m b o).2 n).2.2.start = m.start := hrl.1.trans hsl.1
+      have hlimit : (read true f unc (seek true f unc m b o).2 n).2.2.limit = m.limit := hrl.2.trans hsl.2
+      generalize (read true f unc (seek true f unc m b o).2 n).2.2 = r at *
+      have c3 := seek_coherent hc cr (getPos m).1 (getPos m).2
+      have hv := seek_sim_of_coherent hc cr cm hstart hlimit (getPos m).1 (getPos m).2
+      refine ⟨seek_getPos hc hok, fun ns => ?_⟩
+      by_cases hend : m.offset = m.dataUsed
+      · have hp : getPos m = (m.nextBlock, 0) := by unfold getPos; simp only [hend, if_true]
+        rw [hp] at hok hv c3 ⊢
+        simp only at hok hv c3 ⊢
+        have hm0 : (seek true f unc m m.nextBlock 0).1 = 0 := hv.1.symm.trans hok
+        exact (answerReads_from_block_end hc ns m _ cm c3 hend hm0 (hv.2 hok).symm).symm
+      · have hp : getPos m = (m.tag, m.offset) := by unfold getPos; simp only [hend, if_false]
+        rw [hp] at hok hv c3 ⊢
+        simp only at hok hv c3 ⊢
+        have hm0 : (seek true f unc m m.tag m.offset).1 = 0 := hv.1.symm.trans hok
+        have hself := seek_hit_self hend hm0
+        have hsim := hv.2 hok
+        rw [hself] at hsim
+        exact sim_answerReads hc ns _ _ hsim c3 cm
+    · simp only [h2, ne_eq, not_false_eq_true, if_true] at hok
+  · simp only [h1, ne_eq, not_false_eq_true, if_true] at hok
 
 end Sqfs.MetaReader
